@@ -95,7 +95,21 @@ per-RPC credential keys, context causes; (12) after a tunnel-level abort by
 the client the raw peer must see the carrier stream half-closed or ended
 ("both ends observe it"); (13) hostile peers combine deviations (announced
 window x overrun); (14) `selftest/run_corpus.sh` re-runs every kept change
-against its check after harness changes (70 changes: all reported).
+against its check after harness changes (70 changes after round d: all
+reported, at VERIF_SEED 1 and 2); (15) the machinery's own blind spots: a
+family whose file's init function ran before the base lister it extended was
+assigned dropped out of every case list without a trace (found when a
+submitted change that it covers went unreported), violations tagged for a
+property whose check does not list the family went unjudged, and a phase
+added to a shared workload broke another check's premise without that check
+being re-run - hence `selftest/audit_families.sh` (every family is listed by
+some check), `selftest/audit_other_tags.py` (after all checks ran on the
+unchanged tree every unjudged tag is a known finding) and multi-seed sweeps of
+ALL checks on a snapshot after every batch of harness changes; (16) new
+workloads keep finding defects in the unchanged code, not only seeded ones:
+the revision-zero parked-receive-loop phases (D20, D21) and the look at the
+registry from inside the close callback (D22) were both written to catch a
+submitted change and fired before it was applied.
 '''
 open(p, "w").write(s)
 print(summary, "total missed", missed, "of", len(ids))
